@@ -52,7 +52,9 @@ def process_signature(app, what, name, obj, options,
         return sig, return_annotation
     if isinstance(obj, instancemethod): # python 2 unbound methods
         obj = obj.__func__
-    if isinstance(parent, type) and callable(obj):
+    if (
+            isinstance(parent, type) and callable(obj)
+            and not _is_staticmethod(parent, name.rpartition('.')[2])):
         try:
             obj = _util.safe_get(obj, object(), type(parent))
         except TypeError:
@@ -79,6 +81,14 @@ def process_signature(app, what, name, obj, options,
     else:
         sret_annot = ''
     return str(sig), sret_annot
+
+def _is_staticmethod(cls, attr):
+    # a staticmethod is called with exactly the parameters it is defined with:
+    # there is no instance to bind away
+    for klass in cls.__mro__:
+        if attr in klass.__dict__:
+            return isinstance(klass.__dict__[attr], staticmethod)
+    return False
 
 def fetch_dotted_name(name):
     assert name
